@@ -1,6 +1,8 @@
 """C06 estimates and confidence bounds (DESIGN.md section 5 C06): ordering clauses only."""
 import bounds_rules as B
 import hll_rules as H
+import cpc_rules
+import theta_rules
 
 
 def run(facts, tier):
@@ -9,6 +11,8 @@ def run(facts, tier):
         ("tables", B.table_rules, 80, "exhaustive sign / widening predicates over every entry of the HLL, CPC and binomial bound tables"),
         ("binomial", B.binomial_rules, 4, "clamp shapes min(estimate, max(n, lb)) / max(estimate, ub); small-sample branches typed monotone in the tail probability"),
         ("bound shapes", B.hll_cpc_bound_shapes, 9, "HLL and CPC bound formulas: estimate / (1 +- eps), right table side, argument validated"),
+        ("theta reset", theta_rules.builder_reset, 2, "reset() restores the starting theta (exactness below k after reuse)"),
+        ("cpc window invariant", cpc_rules.window_invariants, 1, "no coupon is dropped by a first-interesting-column beyond the window (estimates are functions of the coupon count)"),
         ("union refresh", H.union_refresh, 6, "bounds of an HLL union are computed on refreshed state"),
     ):
         o = f(facts)
